@@ -109,6 +109,14 @@ def corr_and_oracle(ck, n_circuits, thorough=False):
                 if not ok:
                     ck.broken_tie(f'SimOps model correspondence ({diff})', f'real {real[:200]} != model {model[:200]}',
                                   inp={'net': dump, 'strip': strip, 'reuse': reuse})
+        # certificates of Props/C01 (4''): pin tables / line records consistent, the REAL topological order is one
+        try:
+            order = ','.join(str(n.index) for n in c.topological_order())
+            ans = common.run_driver([f'net {dump}', f'netcert {order}'])[1]
+        except Exception as ex:
+            ans = f'{type(ex).__name__}: {ex}'[:200]
+        if ans != 'wf=true order=true':
+            ck.broken_tie('certificates Net.wfB / orderOKB on the real circuit and the real topological order', ans, inp={'net': dump})
         # certificate of Props/C01 (4'): operands never written at/after their use, single writers — on the REAL op rows
         for strip in (False, True):
             try:
